@@ -150,6 +150,19 @@ def build_model() -> tuple[Model, dict]:
     expect["U"] = ("struct", f"{M}Union", [("field", "a", f"{P}uint32"), ("field", "b", f"{P}uint16")])
     td["E"] = m.struct("E", [])
     expect["E"] = ("struct", f"{M}Structure", [])
+    # repeated '_' padding members: the name-keyed view (what attribute access sees) holds one; a member of an anonymous structure is folded into it
+    pad_fields = [("_", b["uint8"], None), ("a", b["uint16"], None), ("_", b["uint32"], None)]
+    pad = m.struct("Pad", [("_", b["uint32"], None), ("a", b["uint16"], None)])
+    pad.attrs["__fields__"] = [Sym(f"field:Pad.{i}", {"name": n_, "_name": n_, "type": t_, "bits": None}) for i, (n_, t_, _b) in enumerate(pad_fields)]
+    pad.attrs["fields"] = {"_": pad.attrs["__fields__"][2], "a": pad.attrs["__fields__"][1]}
+    td["Pad"] = pad
+    expect["Pad"] = ("struct", f"{M}Structure", [("field", "_", f"{P}uint32"), ("field", "a", f"{P}uint16")])
+    anon_m = m.struct("__anonymous_7__", [("lo", b["uint8"], None), ("hi", b["uint8"], None)])
+    folded = m.struct("Folded", [("lo", b["uint8"], None), ("hi", b["uint8"], None), ("v", b["uint16"], None)])
+    anon_field = Sym("field:Folded.anon", {"name": None, "_name": "__anonymous_7__", "type": anon_m, "bits": None})
+    folded.attrs["__fields__"] = [anon_field, folded.attrs["fields"]["v"]]
+    td["Folded"] = folded
+    expect["Folded"] = ("struct", f"{M}Structure", [("field", "lo", f"{P}uint8"), ("field", "hi", f"{P}uint8"), ("field", "v", f"{P}uint16")])
     td["vlq"] = m.mk("vlq", "Custom", base="BaseType")
     expect["vlq"] = ("class", f"{M}BaseType")
     td["late"] = m.struct("late", [("n", b["uint8"], None)])
